@@ -51,3 +51,21 @@ Print Assumptions C08_single_bit_flip_rejected.
 Example C08_example : rec_ok (mkput [1; 2] [3]) /\
   parse_tail (encode_rec (mkput [1; 2] [3]) ++ [0; 0; 0]) = ([mkput [1; 2] [3]], 13, SShort).
 Proof. split; [repeat split; repeat constructor; vm_compute; reflexivity | vm_compute; reflexivity]. Qed.
+
+(* ---- the Go arithmetic this property rests on, AS TRANSLATED FROM THE CURRENT SOURCES by tools/gotrans
+   (gen/Funcs.v, operators in GoSem.v), equals the model's, for all values of the Go types ---- *)
+From Coq Require Import ZArith NArith Bool.
+From Pogreb Require Import Base Record Index GoSem FuncsIndexCheck FuncsRecordCheck FuncsLogCheck FuncsFSCheck.
+From Pogreb.gen Require Funcs Consts.
+Import Funcs.
+Open Scope Z_scope.
+
+Theorem C08_go_next_sizes :
+  forall ks w fsize off : N,
+  (ks < 2 ^ 16)%N -> (w < 2 ^ 32)%N -> (off <= fsize)%N -> (fsize < 2 ^ 63)%N -> (off < 2 ^ 32)%N ->
+  go_next_sizes (Z.of_N ks) (Z.of_N w) (Z.of_N fsize) (Z.of_N off)
+  = (if (delbit <=? w)%N then 1 else 0, Z.of_N ks, Z.of_N (w mod delbit), Z.of_N (rec_overhead + ks + w mod delbit),
+     (fsize - off <? rec_overhead + ks + w mod delbit)%N).
+Proof. exact next_sizes_ok. Qed.
+Print Assumptions C08_go_next_sizes.
+
